@@ -75,6 +75,12 @@ def non_unary_op_pattern : String := Gen.StringTables.non_unary_op_pattern
 def negative_pattern : String := Gen.StringTables.negative_pattern
 /-- replacement template of `negative_pattern.sub(r"-1 * \1", …)` in `eq_string_to_infix_tokens` -/
 def negative_repl : String := (Gen.StringTables.subTemplates.lookup "negative_pattern").getD ""
+/-- regex literal of `string_parsing.negative_base_pattern` (`-N^`, `N` a number: the power binds tighter than the minus) -/
+def negative_base_pattern : String := Gen.StringTables.negative_base_pattern
+/-- replacement template of `negative_base_pattern.sub(r"-1 * \1", …)` in `eq_string_to_infix_tokens` -/
+def negative_base_repl : String := (Gen.StringTables.subTemplates.lookup "negative_base_pattern").getD ""
+/-- the order in which `eq_string_to_infix_tokens` applies its three `re.sub` passes -/
+def subOrder : List String := Gen.StringTables.subTemplates.map (·.1)
 /-- replacement template of `non_unary_op_pattern.sub(r" \1 ", …)` in `eq_string_to_infix_tokens` -/
 def non_unary_op_repl : String := (Gen.StringTables.subTemplates.lookup "non_unary_op_pattern").getD ""
 /-- the `bad_token` list of `eq_string_to_infix_tokens` -/
